@@ -2122,7 +2122,7 @@ def canary(dep, udp=False, deadline=3.0, kind="socks5_ipv4"):
     return out
 
 
-def health(dep, udp=False, deadline=3.0):
+def health(dep, udp=False, deadline=3.0, when="afterwards"):
     """alive + no panic + canary -> (ok, problems list, observation dict)"""
     st = process_state(dep)
     c = canary(dep, udp=udp, deadline=deadline)
@@ -2133,8 +2133,8 @@ def health(dep, udp=False, deadline=3.0):
         if st["panicked"][w]:
             problems.append("%s logged a panic" % w)
     if not c["tcp"]:
-        problems.append("TCP canary failed afterwards: %s" % c["tcp_detail"])
+        problems.append("TCP canary failed %s: %s" % (when, c["tcp_detail"]))
     if udp and not c["udp"]:
-        problems.append("UDP canary failed afterwards (target got %s, replies %s)" % (c["udp_detail"]["target_got"], c["udp_detail"]["replies"]))
+        problems.append("UDP canary failed %s (target got %s, replies %s)" % (when, c["udp_detail"]["target_got"], c["udp_detail"]["replies"]))
     obs = dict(st, canary=c)
     return (not problems), problems, obs
